@@ -2,7 +2,7 @@
 # usage: py/mutant.sh <patch.diff> <Cxx> [<Cyy> ...]   — runs checks against a scratch copy of /repo with
 # the patch applied (never touches /repo); prints the last lines of each check.
 set -e
-PATCH="$1"; shift
+PATCH="$(readlink -f "$1")"; shift
 W=/tmp/mt_repo_$$
 rm -rf "$W"; mkdir -p "$W"
 rsync -a --exclude target /repo/ "$W/repo/"
